@@ -1,5 +1,6 @@
 import I2N.Lemmas.Graph
 import I2N.Lemmas.GraphResolve
+import I2N.Lemmas.GraphRestrict
 /-!
 # C09 — Workers get equivalent linked graph copies; lazy and eager parsing agree
 
@@ -180,5 +181,225 @@ example : ({ demoBridged with regs := [[0, 1, 2, 3], [8, 9, 10, 11], [4, 5, 6, 7
   decide
 /-- a one-sided bridge is rejected -/
 example : ({ demoBridged with bridged := [(0, 1)] } : I2N.Graph.Graph).checkBridges = false := by decide
+
+/-! ### the copy of a worker WITH object restrictions versus the copy of an unrestricted worker
+
+Compared at the level of (test, per-vm variant assignment) pairs: `Key.bare k = (k.test, k.asg)` erases the clone
+labels of a node name (`copyTests` = the bare nodes of a worker's copy, `copyParents … x` = the bare parents of the
+bare node `x` along the edges of the copy).  Labels have to be erased: a restriction that leaves a dependency
+with one producer removes the clones (`restricted_copy_keys_differ`).  `w` is the restricted worker, `v` any
+worker without restrictions; `asgOK (allowed S user w) a` = every vm variant of the assignment `a` is allowed
+for `w`. -/
+
+/-- the label-erasing projection, explicitly -/
+theorem bare_def (k : Key) : k.bare = (k.test, k.asg) := rfl
+
+/-- **The true inclusion** (every suite, selection, user and worker restrictions): every (test, assignment) pair
+instantiated for the restricted worker is instantiated for the unrestricted worker, on variants the restricted
+worker allows. -/
+theorem restricted_copy_tests_subset (S : Suite) (user : List (String × VLine)) (sel : List RLine) (w v : Worker)
+    (hv : v.restr = []) (x : Name × Asg) (hx : x ∈ copyTests S user sel w) :
+    x ∈ copyTests S user sel v ∧ asgOK (allowed S user w) x.2 = true := by
+  rw [copyTests_eq] at hx ⊢
+  obtain ⟨h1, h2⟩ := bare_restrict_subset S _ _ (allowed_sub S user w v hv) sel x hx
+  exact ⟨h1, (asgOK_iff _ _).mpr h2⟩
+
+/-- **The converse inclusion is false**: "restricted copy = unrestricted copy filtered by *every vm variant of the
+assignment is allowed for w*" fails whenever everything that needs a setup node is excluded although the setup
+node's own variants are allowed.  Suite `cx1`: leaf `quick.p` on vm1+vm2 needs `install` on vm1; worker `noX`
+excludes the only variant of vm2.  `(install, vm1=A)` is in the unrestricted copy, all its variants are allowed
+for `noX`, and it is not in `noX`'s copy (which is empty). -/
+theorem restricted_copy_tests_not_superset :
+    ∃ (S : Suite) (sel : List RLine) (w v : Worker) (x : Name × Asg), v.restr = [] ∧
+      x ∈ copyTests S [] sel v ∧ asgOK (allowed S [] w) x.2 = true ∧ x ∉ copyTests S [] sel w :=
+  ⟨RDemo.cx1, RDemo.selLeaves, RDemo.noX, RDemo.free, (["original", "install"], [("vm1", "A")]), rfl,
+    by decide, by decide, by decide⟩
+
+/-- … also when the restriction leaves every vm a variant (`cx2`: vm2 keeps `Y`, but the only dependant of
+`install` supports `X` alone) … -/
+theorem restricted_copy_tests_not_superset_nonempty :
+    (∀ vm ∈ RDemo.cx2.variants.map Prod.fst, allowed RDemo.cx2 [] RDemo.noX vm ≠ []) ∧
+    (["original", "install"], [("vm1", "A")]) ∈ copyTests RDemo.cx2 [] RDemo.selLeaves RDemo.free ∧
+    asgOK (allowed RDemo.cx2 [] RDemo.noX) [("vm1", "A")] = true ∧
+    (["original", "install"], [("vm1", "A")]) ∉ copyTests RDemo.cx2 [] RDemo.selLeaves RDemo.noX := by
+  refine ⟨by decide, by decide, by decide, by decide⟩
+
+/-- … and when the selected test itself survives but an intermediate producer is excluded (`cx3`: `quick.d` on
+vm1 ← `m` on vm1+vm2 ← `install` on vm1; `noXY` excludes all of vm2): `quick.d` stays (without its dependency),
+`install` goes although its variants are allowed. -/
+theorem restricted_copy_tests_not_superset_inner :
+    (["quick", "d"], [("vm1", "A")]) ∈ copyTests RDemo.cx3 [] RDemo.selLeaves RDemo.noXY ∧
+    (["original", "install"], [("vm1", "A")]) ∈ copyTests RDemo.cx3 [] RDemo.selLeaves RDemo.free ∧
+    asgOK (allowed RDemo.cx3 [] RDemo.noXY) [("vm1", "A")] = true ∧
+    (["original", "install"], [("vm1", "A")]) ∉ copyTests RDemo.cx3 [] RDemo.selLeaves RDemo.noXY := by
+  refine ⟨by decide, by decide, by decide, by decide⟩
+
+/-- **Equality under a substitution hypothesis.**  If every vm that loses a variant keeps an allowed variant
+`σ vm` that every test of the suite supports (always the case when no test restricts the vms the worker
+restricts and the worker leaves each of them a variant), then the (test, assignment) pairs instantiated for the
+restricted worker are *exactly* those of the unrestricted worker whose every vm variant is allowed for `w`.
+Missing for the unconditional statement: nothing provable — it is false (`restricted_copy_tests_not_superset*`);
+the unconditional equality is `restricted_copy_tests`. -/
+theorem restricted_copy_tests_partial (S : Suite) (user : List (String × VLine)) (sel : List RLine) (w v : Worker)
+    (hv : v.restr = []) (σ : String → String)
+    (hσ : ∀ vm ∈ S.variants.map Prod.fst, (∃ x ∈ allowed S user v vm, x ∉ allowed S user w vm) →
+      ∀ t ∈ S.tests, σ vm ∈ allowedFor (allowed S user w) t vm)
+    (x : Name × Asg) :
+    x ∈ copyTests S user sel w ↔ x ∈ copyTests S user sel v ∧ asgOK (allowed S user w) x.2 = true := by
+  constructor
+  · exact restricted_copy_tests_subset S user sel w v hv x
+  · rintro ⟨h1, h2⟩
+    rw [copyTests_eq] at h1 ⊢
+    refine bare_restrict_subst S _ _ (allowed_sub S user w v hv) σ ?_ sel x h1 ((asgOK_iff _ _).mp h2)
+    intro vm hex t ht
+    by_cases hvm : vm ∈ S.variants.map Prod.fst
+    · exact hσ vm hvm hex t ht
+    · obtain ⟨y, hy, _⟩ := hex
+      rw [allowed_nil S user v vm hvm] at hy
+      cases hy
+
+/-- The same with a hypothesis that needs no witness: no test of the suite has an own `only` restriction on a vm
+of which `w` excludes a variant, and `w` leaves every such vm at least one variant. -/
+theorem restricted_copy_tests_unconstrained_partial (S : Suite) (user : List (String × VLine)) (sel : List RLine)
+    (w v : Worker) (hv : v.restr = [])
+    (h : ∀ vm ∈ S.variants.map Prod.fst, (∃ x ∈ allowed S user v vm, x ∉ allowed S user w vm) →
+      allowed S user w vm ≠ [] ∧ ∀ t ∈ S.tests, t.only.find? (fun e => e.1 == vm) = none)
+    (x : Name × Asg) :
+    x ∈ copyTests S user sel w ↔ x ∈ copyTests S user sel v ∧ asgOK (allowed S user w) x.2 = true := by
+  refine restricted_copy_tests_partial S user sel w v hv (fun vm => (allowed S user w vm).headD "") ?_ x
+  intro vm hvm hex t ht
+  obtain ⟨hne, hnone⟩ := h vm hvm hex
+  simp only [allowedFor, hnone t ht]
+  cases hl : allowed S user w vm with
+  | nil => exact absurd hl hne
+  | cons y ys => simp
+
+/-- Every node of the restricted copy is *needed*: reachable from a selected test composed with variants `w`
+allows, along edges of the **unrestricted** copy, through nodes on allowed variants only (no hypothesis). -/
+theorem restricted_copy_tests_needed (S : Suite) (user : List (String × VLine)) (sel : List RLine) (w v : Worker)
+    (hv : v.restr = []) (x : Name × Asg) (hx : x ∈ copyTests S user sel w) :
+    Needed (fun x => ∃ t ∈ selected S sel, x.1 = t.name ∧ x.2 ∈ leafAsgs S (allowed S user v) t ∧
+        asgOK (allowed S user w) x.2 = true)
+      (fun x y => y ∈ copyParents S user sel v x) (fun a => asgOK (allowed S user w) a = true) x := by
+  have hsub := allowed_sub S user w v hv
+  rw [copyTests_eq] at hx
+  refine Needed.imp ?_ ?_ ?_ (needed_of_bare S _ _ hsub sel x hx)
+  · rintro y ⟨t, ht, hn, ha⟩
+    obtain ⟨h1, h2⟩ := (leafAsgs_restrict S _ _ hsub t y.2).mp ha
+    exact ⟨t, ht, hn, h1, (asgOK_iff _ _).mpr h2⟩
+  · intro y z h; exact (mem_copyParents S user sel v y z).mpr h
+  · intro a h; exact (asgOK_iff _ _).mpr h
+
+/-- **The restricted copy, exactly** (every selection, user and worker restrictions; suites with unique test names
+and an acyclic declared producer relation, `RankOK` as in C06/C07): the (test, assignment) pairs instantiated for
+the restricted worker `w` are the unrestricted copy *minus the excluded variants, minus what is then no longer
+needed*: the least set containing the selected tests composed with variants allowed for `w` and closed under
+"parent in the unrestricted copy whose every vm variant is allowed for `w`". -/
+theorem restricted_copy_tests (S : Suite) (user : List (String × VLine)) (sel : List RLine) (w v : Worker)
+    (hv : v.restr = []) (hun : UniqueNames S) (rk : Name → Nat) (hrk : RankOK S rk)
+    (x : Name × Asg) :
+    x ∈ copyTests S user sel w ↔
+      Needed (fun x => ∃ t ∈ selected S sel, x.1 = t.name ∧ x.2 ∈ leafAsgs S (allowed S user v) t ∧
+          asgOK (allowed S user w) x.2 = true)
+        (fun x y => y ∈ copyParents S user sel v x) (fun a => asgOK (allowed S user w) a = true) x := by
+  constructor
+  · exact restricted_copy_tests_needed S user sel w v hv x
+  · intro h
+    have hsub := allowed_sub S user w v hv
+    rw [copyTests_eq]
+    obtain ⟨rk', hrk', hb⟩ := rank_bounded S rk hrk
+    refine bare_of_needed S _ _ hsub hun rk' hrk' hb sel x (Needed.imp ?_ ?_ ?_ h)
+    · rintro y ⟨t, ht, hn, h1, h2⟩
+      exact ⟨t, ht, hn, (leafAsgs_restrict S _ _ hsub t y.2).mpr ⟨h1, (asgOK_iff _ _).mp h2⟩⟩
+    · intro y z h; exact (mem_copyParents S user sel v y z).mp h
+    · intro a h; exact (asgOK_iff _ _).mp h
+
+/-- **Edges, the inclusion that always holds**: a parent (test, assignment) of a node in the restricted copy is a
+parent of the same (test, assignment) in the unrestricted copy, on variants allowed for `w`. -/
+theorem restricted_copy_parents_subset (S : Suite) (user : List (String × VLine)) (sel : List RLine)
+    (w v : Worker) (hv : v.restr = []) (x y : Name × Asg) (hy : y ∈ copyParents S user sel w x) :
+    y ∈ copyParents S user sel v x ∧ asgOK (allowed S user w) y.2 = true := by
+  rw [mem_copyParents, mem_bareParents_workerNodes] at hy ⊢
+  obtain ⟨h1, h2⟩ := PEdge_mono S _ _ (allowed_sub S user w v hv) sel x y hy
+  exact ⟨h1, (asgOK_iff _ _).mpr h2⟩
+
+/-- **Edges of nodes present in both copies agree, modulo clone labels and excluded variants**: for a (test,
+assignment) pair `x` of the restricted copy (it is in the unrestricted copy too, by
+`restricted_copy_tests_subset`), its parent (test, assignment) set in the restricted copy is its parent set in
+the unrestricted copy filtered by "every vm variant is allowed for `w`".  (Plain equality of the parent sets is
+false: a producer on another vm loses the excluded variants, `restricted_copy_parents_filter_needed`.) -/
+theorem restricted_copy_parents (S : Suite) (user : List (String × VLine)) (sel : List RLine) (w v : Worker)
+    (hv : v.restr = []) (hun : UniqueNames S) (rk : Name → Nat) (hrk : RankOK S rk)
+    (x : Name × Asg) (hx : x ∈ copyTests S user sel w) (y : Name × Asg) :
+    y ∈ copyParents S user sel w x ↔
+      y ∈ copyParents S user sel v x ∧ asgOK (allowed S user w) y.2 = true := by
+  constructor
+  · exact restricted_copy_parents_subset S user sel w v hv x y
+  · rintro ⟨h1, h2⟩
+    rw [mem_copyParents, mem_bareParents_workerNodes] at h1 ⊢
+    rw [copyTests_eq] at hx
+    obtain ⟨rk', hrk', hb⟩ := rank_bounded S rk hrk
+    exact PEdge_restrict_back S _ _ (allowed_sub S user w v hv) hun rk' hrk' hb sel x y hx h1 ((asgOK_iff _ _).mp h2)
+
+/-- the filter in `restricted_copy_parents` is needed: in `cx3`, `quick.d(vm1=A)` is in both copies; `m(A, Y)` is
+its parent in the unrestricted copy only (worker `onlyX`) -/
+theorem restricted_copy_parents_filter_needed :
+    (["quick", "d"], [("vm1", "A")]) ∈ copyTests RDemo.cx3 [] RDemo.selLeaves RDemo.onlyX ∧
+    (["internal", "m"], [("vm1", "A"), ("vm2", "Y")]) ∈
+      copyParents RDemo.cx3 [] RDemo.selLeaves RDemo.free (["quick", "d"], [("vm1", "A")]) ∧
+    (["internal", "m"], [("vm1", "A"), ("vm2", "Y")]) ∉
+      copyParents RDemo.cx3 [] RDemo.selLeaves RDemo.onlyX (["quick", "d"], [("vm1", "A")]) := by
+  refine ⟨by decide, by decide, by decide⟩
+
+/-- why labels are erased: in `cx3` the unrestricted worker clones `quick.d` (two producers `m(A,X)`, `m(A,Y)`:
+label `mst`), the worker restricted to `X` does not — the node *keys* of the restricted copy are not among the
+unrestricted copy's, the bare pairs are -/
+theorem restricted_copy_keys_differ :
+    (⟨["quick", "d"], [("vm1", "A")], []⟩ : Key) ∈
+      (resolveWorker RDemo.cx3 [] RDemo.selLeaves RDemo.onlyX).nodes.map (·.inst.key) ∧
+    (⟨["quick", "d"], [("vm1", "A")], []⟩ : Key) ∉
+      (resolveWorker RDemo.cx3 [] RDemo.selLeaves RDemo.free).nodes.map (·.inst.key) ∧
+    (⟨["quick", "d"], [("vm1", "A")], ["mst"]⟩ : Key) ∈
+      (resolveWorker RDemo.cx3 [] RDemo.selLeaves RDemo.free).nodes.map (·.inst.key) := by
+  refine ⟨by decide, by decide, by decide⟩
+
+/-! #### non-vacuity on `Demo.demo` (worker `onlyA`: `only_vm1 = A`) and on `cx3` (worker `onlyX`) -/
+
+/-- the substitution hypothesis holds for the demo suite and the worker restricted to variant `A` … -/
+example : ∀ vm ∈ Demo.demo.variants.map Prod.fst,
+    (∃ x ∈ allowed Demo.demo [] RDemo.free vm, x ∉ allowed Demo.demo [] RDemo.onlyA vm) →
+      ∀ t ∈ Demo.demo.tests, (fun _ => "A") vm ∈ allowedFor (allowed Demo.demo [] RDemo.onlyA) t vm := by decide
+/-- … so does the witness-free hypothesis of `restricted_copy_tests_unconstrained_partial` … -/
+example : ∀ vm ∈ Demo.demo.variants.map Prod.fst,
+    (∃ x ∈ allowed Demo.demo [] RDemo.free vm, x ∉ allowed Demo.demo [] RDemo.onlyA vm) →
+      allowed Demo.demo [] RDemo.onlyA vm ≠ [] ∧
+        ∀ t ∈ Demo.demo.tests, t.only.find? (fun e => e.1 == vm) = none := by decide
+/-- … the restriction does exclude something (the premise of the hypothesis is met for vm1) … -/
+example : ∃ x ∈ allowed Demo.demo [] RDemo.free "vm1", x ∉ allowed Demo.demo [] RDemo.onlyA "vm1" := by decide
+/-- … so the restricted copy is the filtered unrestricted copy; concretely the leaf on `A` and its whole setup
+chain stay, everything on `B` goes -/
+example (x : Name × Asg) : x ∈ copyTests Demo.demo [] RDemo.selLeaves RDemo.onlyA ↔
+    x ∈ copyTests Demo.demo [] RDemo.selLeaves RDemo.free ∧ asgOK (allowed Demo.demo [] RDemo.onlyA) x.2 = true :=
+  restricted_copy_tests_partial Demo.demo [] RDemo.selLeaves RDemo.onlyA RDemo.free rfl (fun _ => "A") (by decide) x
+example : (["quick", "t"], [("vm1", "A")]) ∈ copyTests Demo.demo [] RDemo.selLeaves RDemo.onlyA ∧
+    (["original", "install"], [("vm1", "A")]) ∈ copyTests Demo.demo [] RDemo.selLeaves RDemo.onlyA ∧
+    (["quick", "t"], [("vm1", "B")]) ∈ copyTests Demo.demo [] RDemo.selLeaves RDemo.free ∧
+    (["quick", "t"], [("vm1", "B")]) ∉ copyTests Demo.demo [] RDemo.selLeaves RDemo.onlyA := by
+  refine ⟨by decide, by decide, by decide, by decide⟩
+/-- the suite hypotheses of `restricted_copy_tests` / `restricted_copy_parents` hold for the demo suite and `cx3` -/
+example : UniqueNames Demo.demo ∧ RankOK Demo.demo Demo.rk := by
+  unfold UniqueNames RankOK; refine ⟨by decide, by decide⟩
+example : UniqueNames RDemo.cx3 ∧ RankOK RDemo.cx3 RDemo.rk3 := by
+  unfold UniqueNames RankOK; refine ⟨by decide, by decide⟩
+/-- a node present in both copies with a non-empty parent set: `d(A)` hangs under both members of the group `m` -/
+example : copyParents Demo.demo [] RDemo.selLeaves RDemo.onlyA (["internal", "d"], [("vm1", "A")]) =
+    [(["internal", "m", "a"], [("vm1", "A")]), (["internal", "m", "b"], [("vm1", "A")])] := by decide
+/-- `cx3` with the worker restricted to `X`: the hypothesis of the `_partial` theorem holds although clone labels
+change, and the restricted worker keeps one of the two producers -/
+example : ∀ vm ∈ RDemo.cx3.variants.map Prod.fst,
+    (∃ x ∈ allowed RDemo.cx3 [] RDemo.free vm, x ∉ allowed RDemo.cx3 [] RDemo.onlyX vm) →
+      ∀ t ∈ RDemo.cx3.tests, (fun _ => "X") vm ∈ allowedFor (allowed RDemo.cx3 [] RDemo.onlyX) t vm := by decide
+example : copyParents RDemo.cx3 [] RDemo.selLeaves RDemo.onlyX (["quick", "d"], [("vm1", "A")]) =
+    [(["internal", "m"], [("vm1", "A"), ("vm2", "X")])] := by decide
 
 end I2N.Props.C09
